@@ -125,6 +125,7 @@ def check_accessors(repo: Repo, rep, P: str, ci: ClassInfo, word: str, width: in
             rep.inconclusive(f"{P}.R3", f"{construct_base}.{name}", "", "setter signature", f"{ci.file.rel}:{s.lineno}")
             continue
         text = "; ".join(norm(x) for x in stmts_of(s))
+        imprecise0 = bits.IMPRECISE[0]
         try:
             ev = BitEval(repo, ci, {key: old, params[0]: BV.term("v")})
             ev.run(stmts_of(s))
@@ -139,6 +140,15 @@ def check_accessors(repo: Repo, rep, P: str, ci: ClassInfo, word: str, width: in
         where = f"{ci.file.rel}:{s.lineno}"
         # (a) read-back is the new value masked/clamped to the field width
         lb = low_bits_of_single_term(back)
+        # lanes lost to an unknown carry / borrow are "unknown", not "wrong": a violation needs a lane that is definitely off
+        definite_back = any((not bits.is_unknown(l)) and "old" in bits.deps(l) for l in back.lanes[:len(F)])
+        definite_other = [i for i in range(width) if i not in F and new.lanes[i] != old.lanes[i] and not bits.is_unknown(new.lanes[i])]
+        any_unknown = any(bits.is_unknown(l) for l in new.lanes) or any(bits.is_unknown(l) for l in back.lanes)
+        if any_unknown and not definite_back and not definite_other:
+            rep.inconclusive(f"{P}.R3", f"{construct_base}.{name}", text,
+                             "the setter uses addition / subtraction whose carries the bit domain cannot follow (e.g. adding the difference "
+                             "of new and old): not decided", where)
+            continue
         if lb is None or "old" in back.deps():
             bad = [f"bit {F[0] + i}: {x}" for i, x in enumerate(back.show(len(F))) if "old" in x or x.startswith("T")]
             rep.violation(f"{P}.R3a", f"{construct_base}.{name}", text,
@@ -375,7 +385,7 @@ def check_pack_pair(repo: Repo, rep, P: str, rule: str, writer_ci: ClassInfo, wr
     except Unsupported as e:
         rep.inconclusive(f"{P}.{rule}", wconstruct, norm(payload), f"not evaluable: {e}", f"{writer_ci.file.rel}:{payload.lineno}")
         return
-    unknown = word.deps() - set(widths)
+    unknown = word.deps() - set(widths) - {bits.CARRY}          # the carry marker is not a term (lanes lost to carries are judged below)
     if unknown:
         rep.inconclusive(f"{P}.{rule}", wconstruct, norm(payload), f"packed word depends on terms of unknown width: {sorted(unknown)}",
                          f"{writer_ci.file.rel}:{payload.lineno}")
